@@ -786,3 +786,13 @@ pub(crate) fn verif_parked_commands() -> Option<usize> {
         .try_with(|sender| unsafe { (*sender.get()).verif_parked() })
         .ok()
 }
+
+#[cfg(fastrace_verif)]
+pub(crate) fn verif_registry_locked() -> bool {
+    SPSC_RXS.is_locked()
+}
+
+#[cfg(fastrace_verif)]
+pub(crate) fn verif_collector_locked() -> bool {
+    GLOBAL_COLLECTOR.is_locked()
+}
